@@ -158,7 +158,7 @@ macro_rules! from_abs_sign {
 }
 //@ name=c13_new_from_abs_sign_1 prop=C13,C06,C11 tier=quick profile=k64 funcs="Int::new_from_abs_sign,Int::abs_sign" bound="Int<1>: every magnitude and sign" free_bits=65
 from_abs_sign!(c13_new_from_abs_sign_1, 1);
-//@ name=c13_new_from_abs_sign_2 prop=C13,C06,C11 tier=quick profile=k64 funcs="Int::new_from_abs_sign,Int::abs_sign" bound="Int<2>: every magnitude and sign" free_bits=129
+//@ name=c13_new_from_abs_sign_2 prop=C13,C06,C11 tier=quick profile=k64 funcs="Int::new_from_abs_sign,Int::abs_sign" bound="Int<2>: every magnitude and sign" free_bits=129 core=C11
 from_abs_sign!(c13_new_from_abs_sign_2, 2);
 //@ name=c13_new_from_abs_sign_4 prop=C13,C06,C11 tier=quick profile=k64 funcs="Int::new_from_abs_sign,Int::abs_sign" bound="Int<4>: every magnitude and sign" free_bits=257
 from_abs_sign!(c13_new_from_abs_sign_4, 4);
